@@ -18,6 +18,7 @@ EXPLANATION = (
 )
 
 D = A + "disseminator::"
+A_NET = K.A + "network::"
 ROTOR = D + "rotor::Rotor"
 TURB = D + "turbine::Turbine"
 TREE = D + "turbine::TurbineTree"
@@ -153,6 +154,38 @@ def _cache_follows_inputs(prog, o):
             o.check(fresh or copied, "%s|construct|fresh-cache" % fshort(d), "a Turbine built with another fanout gets a freshly created tree cache (a carried-over cache only together with the fanout it was filled under)", sp,
                     {"fanout": mir.show(fan)[:60]})
     o.check(found >= 2, "Turbine|fanout-sites", "%d site(s) that set Turbine.fanout examined" % found, "")
+
+
+def ob_batched_send(run, oid):
+    """UdpNetwork::send_to_many (Linux sendmmsg path): which destinations a chunk is sent to"""
+    prog = run.program("lib")
+    o = run.ob(oid, "the batched send walks the destination list: each chunk (and each retry after a short write) takes its addresses at the current progress offset",
+               "a relay / tree node sends to up to thousands of validators in chunks: a chunk that starts at the beginning of the list again re-sends to the first destinations and never reaches the rest",
+               floor=1)
+    fam = [b for d, b in prog.bodies.items() if d.startswith(A_NET + "udp::sendmmsg::send_to_many_linux")]
+    if not fam:
+        o.ok("sendmmsg|absent", "no sendmmsg fast path on this target / tree", "", nontrivial=False)
+        return
+    uses = []
+    for b in fam:
+        for c in b.calls():
+            last = c.name.rsplit("::", 1)[-1]
+            ts = [b.operand_term(a) for a in c.args]
+            if not ts or not K.mentions(ts[0], lambda x: x[0] == "upvar" and "sockaddr" in str(x[1]).lower()) and not K.mentions(ts[0], lambda x: x[0] in ("local", "param") and "sockaddr" in str(x[2] if len(x) > 2 else "").lower()):
+                continue
+            if last in ("index", "get", "get_unchecked"):
+                off = ts[1] if len(ts) > 1 else None
+                okk = off is not None and K.mentions(off, lambda x: x[0] == "upvar") and K.mentions(off, lambda x: x[0] == "param")
+                uses.append((c, okk, "indexed at " + mir.show(off)[:60]))
+            elif last in ("iter", "into_iter", "as_slice", "deref"):
+                # an iterator over the list: must be advanced by the progress counter (skip / slice from offset)
+                chain = [x for fb in fam for x in fb.calls() if x.name.rsplit("::", 1)[-1] in ("skip", "index") and any(K.mentions(fb.operand_term(a), lambda y: y[0] == "upvar") for a in x.args[1:2])]
+                uses.append((c, bool(chain), "iterated" + (" from an offset" if chain else " from the start")))
+    # the conversion of the caller's addresses happens once, outside the chunk loop: not a per-chunk use
+    per_chunk = [u for u in uses if u[0].body.defpath.count("{closure") >= 2]
+    o.check(bool(per_chunk), "send_to_many_linux|destinations|found", "%d per-chunk use(s) of the destination list examined" % len(per_chunk), fam[0].span)
+    for (c, okk, how), key in K.ordinal_keys(per_chunk, lambda u: "send_to_many_linux|destinations"):
+        o.check(okk, key + "|at-progress-offset", "the chunk's destinations are taken at the progress offset (offset + position in chunk)", c.span, {"how": how})
 
 
 def ob_cache(run, oid):
@@ -341,6 +374,7 @@ def ob_forward(run, oid):
 
 
 def check(run):
+    ob_batched_send(run, "O16.8")
     from . import detectors as _DS
     _DS.ob_structural_impls(run, "O16.7", ['disseminator::', 'types::'], 'cache keys and relay comparisons use the derived equality / order of slots and indices')
     from . import detectors as _DL
